@@ -92,6 +92,8 @@ class ClobberLeg(object):
             "old_emptied": st.sampled_from([False, False, True]),
             "old_no_stats": st.sampled_from([False, False, True]),
             "dbname": st.sampled_from(["target.db", "target.db", "annotation[1].db", "a*b?.db", "sp ace.db"]),
+            "call_form": st.sampled_from(["keywords", "keywords", "positional-id_spec"]),
+            "tilde": st.integers(0, 7).map(lambda v: v == 0),
         })
 
     def classify(self, case):
@@ -119,11 +121,29 @@ class ClobberLeg(object):
         snap_old = dbsnap.snapshot(db)
         if not case["keep_open"]:
             db.conn.close()
+        new_is_gtf = "empty" not in case["new"] and case["new"]["gtf"]
+        spec3 = {"gene": "gene_id", "transcript": "transcript_id"} if new_is_gtf else "ID"  # the defaults, spelled out
+        positional = case.get("call_form") == "positional-id_spec"
         if not case["force"]:
+            target = dbfn
+            import os as _os0
+
+            old_home = _os0.environ.get("HOME")
+            if case.get("tilde"):
+                # the existing file named the way a shell user would: ~/<file> with HOME set to its directory
+                _os0.environ["HOME"] = _os0.path.dirname(dbfn)
+                target = "~/" + _os0.path.basename(dbfn)
             try:
-                db2 = gffutils.create_db(p_new, dbfn)
+                # (id_spec is the documented third positional parameter)
+                db2 = gffutils.create_db(p_new, target, spec3) if positional else gffutils.create_db(p_new, target)
             except Exception as e:  # noqa - any refusal is a refusal
                 db2 = None
+            finally:
+                if case.get("tilde"):
+                    if old_home is None:
+                        _os0.environ.pop("HOME", None)
+                    else:
+                        _os0.environ["HOME"] = old_home
             if db2 is not None:
                 return Failure("create_db on an existing database without force=True did not raise", sig={"kind": "no-refusal"})
             import os as _os
@@ -139,7 +159,7 @@ class ClobberLeg(object):
         elif "empty" in case["new"]:
             pass  # force=True with an input that has no features: rejected by design, outcome not specified
         else:
-            db2 = gffutils.create_db(p_new, dbfn, force=True)
+            db2 = gffutils.create_db(p_new, dbfn, spec3, True) if positional else gffutils.create_db(p_new, dbfn, force=True)
             snap_forced = dbsnap.snapshot(db2)
             db2.conn.close()
             fresh = gffutils.create_db(p_new, ctx.path("fresh.db"))
@@ -188,7 +208,8 @@ class ReadsLeg(object):
             "flag": st.booleans(),
         })
         return st.fixed_dictionaries({"spec": spec_strategy(st, "r"), "ops": st.lists(op, min_size=5, max_size=30),
-                                      "failed_write_first": st.sampled_from([False, False, True])})
+                                      "failed_write_first": st.sampled_from([False, False, True]),
+                                      "merge_all_first": st.sampled_from([False, False, True])})
 
     def classify(self, case):
         kinds = set(o["op"] for o in case["ops"])
@@ -266,6 +287,9 @@ class ReadsLeg(object):
         src = ctx.write("a.txt", text)
         dbfn = ctx.path("r.db")
         db = gffutils.create_db(src, dbfn)
+        if case.get("merge_all_first"):
+            # the database was written to by merge_all() in an earlier session (merged features stored under generated ids)
+            db.merge_all(exclude_components=False)
         db.conn.close()
         # one open/close cycle before taking the reference bytes
         tmp = gffutils.FeatureDB(dbfn)
